@@ -1,7 +1,7 @@
 """C13 - copies are independent, links share what they advertise, pickles round-trip."""
 from harness.props import streams_common as sc
 
-FOCUS = ['construct', 'copy', 'pickle', 'pickle', 'copy_like', 'proxy', 'flow_proxy', 'link_with', 'unlink', 'flash_TP']
+FOCUS = ['construct', 'copy', 'pickle', 'pickle', 'copy_like', 'proxy', 'flow_proxy', 'link_with', 'unlink', 'flash_TP', 'pickle_obj']
 SHAPING = ['set_flow', 'set_flow', 'set_T', 'set_P', 'set_phase', 'set_phases', 'empty', 'scale', 'reset_thermo']
 MC = dict(names=3, ops='c_OpsC13', phasesets='c_PhaseSets', depth='Depth5', depth_quick='Depth4',
           props=['IndependentUntouched'])
